@@ -45,6 +45,9 @@ def dispatch (toks : List String) : String :=
   | "kvsw" :: rest => Blue.Driver.C06.handle rest
   | "snap" :: rest => Blue.Driver.C07.handle rest
   | "stall" :: rest => Blue.Driver.C20.handle rest
+  | "vfy" :: rest => Blue.Driver.C08.Vfy.handleVfy rest
+  | "orph" :: rest => Blue.Driver.C08.Vfy.handleOrph rest
+  | "flink" :: rest => Blue.Driver.C08.Flink.handle rest
   | _ => "bad-op"
 
 partial def loop (h : IO.FS.Stream) (out : IO.FS.Stream) (grp : Option Blue.Driver.C09.Ctx) : IO Unit := do
